@@ -94,6 +94,7 @@ class Ctx:
             "exhaustive": self.exhaustive,
             "obligation_problems": self.ob_problems[:5],
             "translate": self.build.get("translate_out", ""),
+            "leanchecker": self.build.get("leanchecker", "not run (thorough tier only)"),
         }
         ev = {
             "property_id": self.prop, "tier": "thorough" if self.tier == "thorough" else "quick", "seed": self.seed,
@@ -1250,6 +1251,19 @@ def c05_streams(ctx):
         for s in r.sample(CAP_INPUTS, ctx.scale(6, 30)):
             cs = [Case(p, "", "compile", ""), Case(p, "", "analyze", s), Case(p, "", "replace", s, "[$1|$2|$3]"), Case(p, "", "tokenize", s), Case(p, "", "is_match", s)]
             gs.append(Group(cs, {"features": {"capture_in_rep", "capture_in_alt", "capture"}, "input": s, "kind": "quantified-groups"}))
+    # regression corpus (past failures run on every check) + back-references to groups that are re-entered in a loop
+    corpus = [("(?:(a)\\1*a){2}", "aaab"), ("(?:.b?)*?(a)??\\1c", "abc"), ("(?:a{9223372036854775808})?", "a"), ("^(?:a|b)[cd]{2}", "ac"), ("a(b?)c", "ac"), ("(", "(")]
+    for p, s in corpus:
+        f = "q" if p == "(" else ""
+        cs = [Case(p, f, "compile", ""), Case(p, f, "is_match", s), Case(p, f, "replace", s, "$1"), Case(p, f, "tokenize", s), Case(p, f, "analyze", s)]
+        gs.append(Group(cs, {"features": set(), "input": s, "kind": "regression"}))
+    for i in range(ctx.scale(200, 3000)):
+        x, y = r.choice("ab"), r.choice("ab")
+        inner = r.choice(["(%s)\\1*%s", "(%s)\\1?%s", "(%s)??\\1%s", "(?:(%s)|b)\\1*%s", "(%s+)\\1*?%s", "(%s)(?:\\1|b)*%s"]) % (x, y)
+        p = r.choice(["(?:%s){2}", "(?:%s)+", "(?:%s)*b", "(?:.b?)*?%s", "(?:%s){1,3}c", "(?:%s|b)+"]) % inner
+        for s in r.sample(CAP_INPUTS, 5) + ["aaab", "abc", "aabaab"]:
+            cs = [Case(p, "", "compile", ""), Case(p, "", "is_match", s), Case(p, "", "replace", s, "[$1]"), Case(p, "", "tokenize", s), Case(p, "", "analyze", s)]
+            gs.append(Group(cs, {"features": {"backref", "capture_in_rep"}, "input": s, "kind": "backref-in-loop"}))
     # nesting depth (stack exhaustion is explored, not modelled): moderate depths must work
     for depth in ([50, 200] if ctx.quick() else [50, 200, 1000]):
         p = "(" * depth + "a" + ")" * depth
